@@ -531,6 +531,139 @@ def exercise(scs, rep, rng, with_model=True):
                         'replay': sc_public(sc)})
 
 
+# --------------------------------------------------------------------------- probes added after seeded changes
+def command_chunk_sizes(limits=(16, 1000, 4000, 50_000), concurrents=(1, 2, 5)):
+    """The chunk size each rate-limited command REALLY hands to the backend for a given limit and concurrency, observed by
+    running the command against a recording in-memory backend (not recomputed from the formula)."""
+    import asyncio, contextlib, tempfile, shutil
+    from pathlib import Path
+    from replicat.repository import Repository
+    from harness.memstore import MemBackend
+    seen = []          # (command, limit, concurrent, chunk_size)
+
+    class Rec(MemBackend):
+        def upload_stream(self, name, stream, length, chunk_size=128_000):
+            self.sizes.append(chunk_size)
+            return super().upload_stream(name, stream, length, chunk_size)
+
+        def download_stream(self, name, stream, chunk_size=128_000):
+            self.sizes.append(chunk_size)
+            return super().download_stream(name, stream, chunk_size)
+
+    d = Path(tempfile.mkdtemp(prefix='verif-c20-', dir='/var/tmp'))
+    cwd = os.getcwd()
+    try:
+        (d / 'src').mkdir()
+        (d / 'src' / 'f').write_bytes(b'x' * 300)
+        os.chdir(d)
+
+        async def go():
+            for L in limits:
+                for n in concurrents:
+                    for command in ('snapshot', 'restore', 'upload_objects', 'download_objects'):
+                        b = Rec()
+                        b.sizes = []
+                        r = Repository(b, concurrent=n, quiet=True, cache_directory=None)
+                        orig_sleep = None
+                        if command in ('snapshot', 'restore'):
+                            await r.init(settings={'encryption': None, 'chunking': {'min_length': 64, 'max_length': 128}})
+                            await r.snapshot(paths=[d / 'src'], rate_limit=L if command == 'snapshot' else None)
+                            if command == 'restore':
+                                b.sizes = []
+                                await r.restore(path=d / f'out-{L}-{n}', rate_limit=L)
+                        elif command == 'upload_objects':
+                            await r.upload_objects([d / 'src' / 'f'], rate_limit=L)
+                        else:
+                            b.objects['o/x'] = b'y' * 300
+                            await r.download_objects(path=d / f'dl-{L}-{n}', rate_limit=L)
+                        for cs in set(b.sizes):
+                            seen.append((command, L, n, cs))
+        import io as _io
+        with contextlib.redirect_stdout(_io.StringIO()), contextlib.redirect_stderr(_io.StringIO()), patched_time(Sim(1, exact=False)):
+            asyncio.run(go())
+    finally:
+        os.chdir(cwd)
+        shutil.rmtree(d, ignore_errors=True)
+    return seen
+
+
+def site_probe(rep, rng):
+    """single stream reading in pieces of the chunk size a command really chose, as fast as the limiter lets it"""
+    scs = []
+    for command, L, n, cs in command_chunk_sizes():
+        calls = [[fs(Fr(0)), fs(Fr(cs)), fs(Fr(0)), fs(Fr(0))] for _ in range(40)]
+        scs.append({'threads': 1, 'L': L, 'dmax': cs, 'dir': 'r' if command in ('snapshot', 'upload_objects') else 'w', 'calls': [calls],
+                    'stack': False, 'family': f'site:{command}', 'site': [command, L, n, cs]})
+        rep.count(f'site chunk size {command}: limit {L} concurrent {n} -> {cs}')
+    for sc in scs:
+        calls, consts = run_impl(sc, rng)
+        rep.case(('site', sc['site']), nontrivial=True)
+        PL, TH = consts
+        L = Fr(sc['L'])
+        # the property's burst allowance is fixed: it may not grow with an oversized chunk, so it is computed from L / 4
+        burst = L * PL + min(Fr(sc['dmax']), L / 4 if L >= 4 else Fr(1))
+        best = max_window_excess([(c['time'], c['size']) for c in calls], L, burst)
+        if best is not None and best[0] > 0 and sc['L'] >= 64:
+            ex, t, T, by = best
+            rep.violations.append({
+                'what': (f'{sc["site"][0]} with limit {sc["L"]} B/s and concurrency {sc["site"][2]} transfers in pieces of {sc["site"][3]} bytes: '
+                         f'{by} bytes pass in a window of {float(T):.6g} s (allowed {float(L * T + burst):.6g})'),
+                'signature': {'kind': 'site_chunk_size', 'command': sc['site'][0]}, 'replay': {k: v for k, v in sc.items() if not k.startswith('_')}})
+
+
+def real_threads_probe(rep):
+    """Four REAL threads read through one limiter for about 1.5 s of wall time; the bytes that reach the underlying
+    streams in any window must respect the limit (a loaded machine can only make this slower, never faster)."""
+    import threading, time as _time
+    from replicat import utils as U
+    L = 200_000
+    n = 4
+    d = max(L // (n * 16), 1)
+    per = 75_000
+    events, elock = [], threading.Lock()
+
+    class Tap(io.BytesIO):
+        def read(self, size=-1):
+            data = super().read(size)
+            with elock:
+                events.append((_time.perf_counter(), len(data)))
+            return data
+
+    lim = U.RateLimitedIO(L)
+
+    def work():
+        w = lim.wrap(Tap(b'z' * per))
+        while w.read(d):
+            pass
+
+    ths = [threading.Thread(target=work) for _ in range(n)]
+    t0 = _time.perf_counter()
+    for t in ths:
+        t.start()
+    for t in ths:
+        t.join(30)
+    total = _time.perf_counter() - t0
+    rep.case(('real-threads', n, L), nontrivial=True)
+    rep.count('real_threads_probe_seconds_x100', int(total * 100))
+    ev = sorted(events)
+    burst = L * 0.5 + (n + 1) * d
+    worst = None
+    for i in range(len(ev)):
+        by = 0
+        for j in range(i, len(ev)):
+            by += ev[j][1]
+            T = ev[j][0] - ev[i][0]
+            ex = by - L * T - burst
+            if worst is None or ex > worst[0]:
+                worst = (ex, T, by)
+    # 10 % tolerance for timer granularity; the seeded lock-scope change overshoots by ~150 %
+    if worst and worst[0] > 0.10 * (L * worst[1] + burst):
+        rep.violations.append({'what': (f'{n} real threads on one limiter (limit {L} B/s, pieces of {d} bytes): {worst[2]} bytes reached the underlying '
+                                        f'streams within {worst[1]:.3f} s, allowed {L * worst[1] + burst:.0f}'),
+                               'signature': {'kind': 'real_threads_window', 'dir': 'r'}, 'replay': {'probe': 'real_threads', 'L': L, 'n': n, 'd': d}})
+
+
+
 def sc_public(sc):
     return {k: v for k, v in sc.items() if not k.startswith('_')}
 
@@ -546,6 +679,8 @@ def run(ctx) -> Report:
     scs.append(slow_io_probe(rng, False))
     scs.append(slow_io_probe(rng, True))
     exercise(scs, rep, rng)
+    site_probe(rep, rng)
+    real_threads_probe(rep)
     for i in range(ctx.scale(1500, 20000)):
         check_transparency(transparency_case(rng, i), rep)
     return rep
@@ -565,6 +700,8 @@ def search(ctx, broken) -> Report:
     for _ in range(500):
         scs.append(gen_multi(rng, rng.choice([40, 120, 300])))
     exercise(scs, rep, rng, with_model=False)
+    site_probe(rep, rng)
+    real_threads_probe(rep)
     for i in range(20000):
         if check_transparency(transparency_case(rng, i), rep) and len(rep.violations) > 5:
             break
